@@ -50,3 +50,12 @@ Check c20_unsubscribe_stops : forall st h s,
   find_csub st h = Some s -> cs_open s = true ->
   exists st', viss_step st [53; h] = Some (st', [[0]]) /\
               forall s', find_csub st' h = Some s' -> cs_open s' = false.
+Check c20_metadata_sound : forall st path line,
+  In line (tl (viss_metadata st path)) ->
+  exists id e, In (id, e) (entries (st_db st)) /\ bytes_prefix path (m_path (e_meta e)) = true /\
+               line = [205; id; kuksa_entry_type (m_etype (e_meta e)); kuksa_data_type (m_dtype (e_meta e))]
+                      ++ enc_opt_val (m_allowed (e_meta e)).
+Check c20_metadata_complete : forall st path id e,
+  In (id, e) (entries (st_db st)) -> bytes_prefix path (m_path (e_meta e)) = true ->
+  In ([205; id; kuksa_entry_type (m_etype (e_meta e)); kuksa_data_type (m_dtype (e_meta e))]
+      ++ enc_opt_val (m_allowed (e_meta e))) (tl (viss_metadata st path)).
